@@ -1691,20 +1691,35 @@ inline void stack_case(uint64_t i, vrt::Rng &r, Values &v, int &shape, ScaleFmt 
     pl.rot = static_cast<unsigned>(r.below(11));
     const size_t C = caps[(i / 20) % 10];
     random_values(r, v);
-    const bool literal_piece = r.chance(1, 3) && pl.slot >= 256;
-    shape = r.pick(POINTER_TEXT_SHAPES);
+    const unsigned piece_kind = static_cast<unsigned>(r.below(6));        // 0..2 a text argument, 3..4 a literal run (arrays of 256 bytes and more), 5 the digits of a number
+    const bool literal_piece = (piece_kind == 3 || piece_kind == 4) && pl.slot >= 256;
+    const bool number_piece = piece_kind == 5;
+    static const int number_shapes[] = {5, 45, 13, 7, 200, 202};
+    shape = number_piece ? r.pick(number_shapes) : r.pick(POINTER_TEXT_SHAPES);
     const bool wide = shape == 34 || shape == 42 || shape == 33 || shape == 41 || shape == 35 || shape == 43 || shape == 8 || shape == 14;
+    std::vector<Arg> args;
+    call_shape(shape, v, "", &args, [](const char *, auto &&...) {});
     // the piece: at most what fits an array (a wide argument: its units)
-    size_t pmax = literal_piece ? pl.slot - 40 : wide ? pl.slot / 4 - 1 : pl.slot - 1;
+    const size_t pmax = literal_piece ? pl.slot - 40 : wide ? pl.slot / 4 - 1 : pl.slot - 1;
     size_t P = r.chance(1, 2) ? pmax - r.below(pmax / 4 + 1) : 1 + r.below(pmax);
     if (r.chance(1, 6)) P = pmax + 1 + r.below(64);                       // ... or just too big for it (stays in the heap)
+    Field number_field = plain_field(0);
+    if (number_piece) {
+        std::vector<size_t> ints;
+        for (size_t k = 0; k < args.size(); ++k) if (args[k].kind == Arg::SInt || args[k].kind == Arg::UInt) ints.push_back(k);
+        static const char classes[] = {0, 'd', 'x', 'X', 'o', 'b', 'b'};
+        number_field = mkf(static_cast<int>(r.pick(ints) + 1), 0, 0, ' ', 0, -1, r.pick(classes), r.chance(1, 3));
+        number_field.alt = r.chance(1, 3);
+        S digits_text;
+        render_field(number_field, args[static_cast<size_t>(number_field.argref - 1)], digits_text);
+        P = digits_text.size();
+    }
     const size_t dmax = std::min(P - 1, C > 256 ? C / 2 - 1 : C);
     const size_t d = r.chance(1, 3) ? 0 : r.chance(1, 2) ? std::min<size_t>(dmax, 1 + r.below(8)) : r.below(dmax + 1);
     const size_t B = C - d;
-    const S piece = compose(r, P, (wide || r.chance(1, 2)) ? BG_ASCII_RANDOM : pick_bg(r));
-    if (literal_piece) set_all_texts(v, compose(r, r.below(12), BG_ASCII_RANDOM));
+    const S piece = number_piece ? S() : compose(r, P, (wide || r.chance(1, 2)) ? BG_ASCII_RANDOM : pick_bg(r));
+    if (literal_piece || number_piece) set_all_texts(v, compose(r, r.below(12), BG_ASCII_RANDOM));
     else set_all_texts(v, piece);
-    std::vector<Arg> args;
     call_shape(shape, v, "", &args, [](const char *, auto &&...) {});
     std::vector<size_t> ptr_args;
     for (size_t k = 0; k < args.size(); ++k) if (pointer_text_arg(args[k])) ptr_args.push_back(k);
@@ -1720,6 +1735,9 @@ inline void stack_case(uint64_t i, vrt::Rng &r, Values &v, int &shape, ScaleFmt 
         if (r.chance(1, 3)) { out.lit(r.chance(1, 2) ? "{{" : "}}"); }   // (one more byte in front: the run begins behind an escape)
         out.lit(piece);
         vrt::count("stack.piece_is_a_literal_run");
+    } else if (number_piece) {
+        out.field(number_field);
+        vrt::count("stack.piece_is_the_rendering_of_a_number");
     } else {
         Field f = plain_field(static_cast<int>(tidx + 1));
         if (r.chance(1, 5)) { dress_text_field(r, f); f.width = static_cast<int>(P + r.below(40)); }
